@@ -252,6 +252,8 @@ def check_C12(res, ctx):
         corrupt.check_db(res, ctx, rng_for(ctx.seed, "C12m", i), "multiblock", 0)
     for i in range(4 if ctx.quick else 300):
         corrupt.random_damage(res, ctx, rng_for(ctx.seed, "C12r", i), i)
+    for i in range(2 if ctx.quick else 30):
+        corrupt.check_truncated_hinted(res, ctx, rng_for(ctx.seed, "C12t", i))
     return "every single-bit flip of every byte of the data / hint / marker files of small databases (exhaustive unless counted under files_sampled), " \
            "then Open + dump + Fold; random multi-byte overwrites, truncations, zero runs and 64-byte garbage on larger ones; oracle: every served " \
            "value was written for that key, no panic; the byte-exact model must predict the same outcome"
